@@ -93,7 +93,11 @@ def build_orbit(node, spec, propagator=None):
     if k == "ephem":
         src = build_orbit(node, spec["src"])
         start = src.date + td(node, spec["start_off"])
-        return src.ephem(start=start, stop=td(node, spec["dur_s"]), step=td(node, spec["step_s"]))
+        eph = src.ephem(start=start, stop=td(node, spec["dur_s"]), step=td(node, spec["step_s"]))
+        if spec.get("in_frame"):
+            # an ephemeris handed over in another frame (e.g. the topocentric frame of a station registered on this node)
+            eph.frame = node.frames.get_frame(spec["in_frame"])
+        return eph
     if k == "sgp4":
         orb = node.Tle(tle_text(spec["tle"])).orbit()
         if propagator is not None:
